@@ -311,13 +311,29 @@ Record C13_case := mkCase {
   c_cap : Z;                       (* warmup_size of the sketches *)
   c_syms : str;                    (* args.missing_value_symbols *)
   c_edges : list Z;                (* bucket edges of value_repetitions.json *)
-  c_hash : list (str * N)          (* internal_hash tabulated on the strings of the table (and 'nan') *)
+  c_hash : list (str * N);         (* internal_hash tabulated on the strings of the table (and 'nan') *)
+  c_p : N;                         (* the sketch instance: index bits, *)
+  c_width : N;                     (*   width constant (64 - p), *)
+  c_h2 : list (N * N)              (*   and its own hash xxh32(seed = p) tabulated on the digests above *)
 }.
+
+Fixpoint lookup_N (tab : list (N * N)) (x : N) : N :=
+  match tab with
+  | [] => 0%N
+  | (k, h) :: r => if N.eqb x k then h else lookup_N r x
+  end.
+(* __len__ of the real sketch: (0, n) exact, (1, z) linear-counting value of z empty registers *)
+Definition enc_lent (x : HLL.lent) : Z * Z :=
+  match x with HLL.Exact n => (0, Z.of_nat n) | HLL.Est z => (1, Z.of_N z) end.
+Definition case_card (c : C13_case) (j : nat) (bs : list batch) : HLL.lent :=
+  card_hll (c_p c) (Z.to_nat (c_cap c)) (c_width c) (lookup_N (c_h2 c)) (hash_val (c_hash c)) j bs.
+Definition case_card_spec (c : C13_case) (col : list val) : HLL.lent :=
+  card_hll_spec (c_p c) (Z.to_nat (c_cap c)) (c_width c) (lookup_N (c_h2 c)) (hash_val (c_hash c)) col.
 
 (* per column: cardinality, histogram, per-batch coverages, mean, annotation;  and the rare table *)
 (* rationals are printed as (numerator, denominator) *)
 Definition qpair (q : Q) : Z * Z := (Qnum q, Zpos (Qden q)).
-Definition col_obs := (option nat * list Z * list (Z * Z) * (Z * Z) * Z)%type.
+Definition col_obs := ((Z * Z) * list Z * list (Z * Z) * (Z * Z) * Z)%type.
 (* values are printed as (tag, string): 0 = str, 1 = nan, 2 = None, 3 / 4 = non-zero / zero number *)
 Definition val_enc (v : val) : Z * str :=
   match v with V s => (0, s) | NaN => (1, []) | PyNone => (2, []) | Num s true => (3, s) | Num s false => (4, s) end.
@@ -328,24 +344,26 @@ Definition C13_model (c : C13_case) (sizes : list nat) : C13_obs :=
   let syms := split_on 44 (c_syms c) in
   (map (fun j =>
           let covs := coverages syms j bs in
-          (card (hash_val (c_hash c)) (c_cap c) j bs,
+          (enc_lent (case_card c j bs),
            hist (c_edges c) (c_bound c) j bs,
            map qpair covs, qpair (qmean covs), cov_annot covs))
        (seq 0%nat (c_ncols c)),
    map (fun kc : key * Z => (fst (fst kc), val_enc (snd (fst kc)), snd kc)) (rare (c_thr c) (c_ncols c) bs)).
 
 (* the specification side, a function of the table alone (through the pipeline: [fill], claimed for every
-   table; direct calls: claimed for None-free tables/columns, where [lift] is the frame content whatever the split): what any implementation history over any composition
-   must report.  card: None = more than cap distinct hashes (no claim); hist: None = distinct >= bound
-   (no claim). *)
+   table; direct calls: claimed for None-free tables/columns, where [lift] is the frame content whatever the split):
+   what any implementation history over any composition must report.  Per column: the length of the real sketch fed
+   once with the whole column (both phases), the hash-free exact count of distinct truthy values, the histogram of
+   the counted prefix (any bound), and whether the whole column is counted (distinct < bound) *)
 Definition table_view (c : C13_case) : list row := if c_pipeline c then fill (c_rows c) else lift (c_rows c).
 
-Definition C13_spec (c : C13_case) : list (option nat * nat * option (list Z)) :=
+Definition C13_spec (c : C13_case) : list ((Z * Z) * nat * list Z * bool) :=
   map (fun j =>
          let col := column j (table_view c) in
-         (card_spec (hash_val (c_hash c)) (c_cap c) col,
+         (enc_lent (case_card_spec c col),
           distinct_truthy col,
-          if Z.of_nat (length (dedup val_eq_dec col)) <? c_bound c then Some (hist_spec (c_edges c) col) else None))
+          hist_general (c_edges c) (c_bound c) col,
+          Z.of_nat (length (dedup val_eq_dec col)) <? c_bound c))
       (seq 0%nat (c_ncols c)).
 
 (* verdicts on what an implementation run reported (card per column, histogram per column, rare table) *)
@@ -354,13 +372,21 @@ Definition optnat_eqb (a : option nat) (b : nat) : bool :=
 Definition zlist_eqb (a b : list Z) : bool :=
   if list_eq_dec Z.eq_dec a b then true else false.
 
+(* cardinality: judged here while the specification is in the exact phase (the cold value is a float formula of z,
+   compared by the harness); histogram: the general form, for every column *)
 Definition C13_check (c : C13_case) (o : list nat * list (list Z) * al key) : list bool * list bool * bool :=
   let '(cards, hists, rep) := o in
   let rows := table_view c in
-  (map (fun jc : nat * nat => optnat_eqb (card_spec (hash_val (c_hash c)) (c_cap c) (column (fst jc) rows)) (snd jc))
+  (map (fun jc : nat * nat =>
+          match case_card_spec c (column (fst jc) rows) with
+          | HLL.Exact n => Nat.eqb n (snd jc)
+          | HLL.Est _ => true
+          end)
        (combine (seq 0%nat (c_ncols c)) cards),
-   map (fun jh : nat * list Z =>
-          let col := column (fst jh) rows in
-          negb (Z.of_nat (length (dedup val_eq_dec col)) <? c_bound c) || zlist_eqb (hist_spec (c_edges c) col) (snd jh))
+   map (fun jh : nat * list Z => zlist_eqb (hist_general (c_edges c) (c_bound c) (column (fst jh) rows)) (snd jh))
        (combine (seq 0%nat (c_ncols c)) hists),
    rare_checkb (c_thr c) (c_ncols c) rows rep).
+
+(* the constants the property names, held to the source by the harness (ast) *)
+Definition warmup_capacity : Z := 262144.        (* HyperLogLogWCache: int((1 << 19) / 2) *)
+Definition sketch_p : N := 19.
